@@ -342,6 +342,46 @@ pub fn main(args: &[String]) {
             rep.set("successful_calls", json!(drawn));
             rep.traces = rep.evaluations;
         }
+        Some("dict") => {
+            // Dict.tla: the token list of every byte string of the family, through dict::tokens
+            use read_fonts::tables::postscript::dict::{self, Token};
+            use read_fonts::tables::postscript::Number;
+            let path = arg_after(args, "--cases").expect("--cases");
+            fvcore::tlc_stream(&path, &["DICTCASE"], |_, c| {
+                rep.evaluations += 1;
+                let data = bytes_of(&c["data"]);
+                let case = json!({"kind": "dict-case", "data": data});
+                let got = guarded(|| -> Vec<Value> {
+                    dict::tokens(&data).take(100_000).map(|t| match t {
+                        Ok(Token::Operand(Number::I32(v))) => json!({"k": "int", "v": v, "s": ""}),
+                        Ok(Token::Operand(Number::Fixed(_))) => json!({"k": "real", "v": 0, "s": ""}),
+                        Ok(Token::Operator(op)) => json!({"k": "op", "v": 0, "s": format!("{op:?}")}),
+                        Err(e) => json!({"k": "err", "v": 0, "s": match e { Error::InvalidNumber => "number", Error::InvalidDictOperator(_) => "operator", Error::Read(_) => "read", _ => "other" }}),
+                    }).collect()
+                });
+                match got {
+                    Err(p) => rep.violation(&format!("tokenizing DICT data panicked: {p}"), case),
+                    Ok(toks) => {
+                        if toks.len() > data.len() {
+                            rep.violation(&format!("{} tokens from {} bytes of DICT data", toks.len(), data.len()), case.clone());
+                        }
+                        if json!(toks) != c["tokens"] {
+                            rep.add("outcome_differs_from_model", 1);
+                            if rep.samples.len() < 4 {
+                                rep.sample(json!({"data": data, "model": c["tokens"], "real": toks}));
+                            }
+                        } else {
+                            rep.distinct += 1;
+                        }
+                        // entries on top of the tokens: a value or an error per entry
+                        if let Err(p) = guarded(|| dict::entries(&data, None).take(100_000).count()) {
+                            rep.violation(&format!("reading DICT entries panicked: {p}"), case);
+                        }
+                    }
+                }
+            });
+            rep.traces = rep.evaluations;
+        }
         Some("corpus") => {
             use read_fonts::TableProvider;
             let per_font: usize = arg_after(args, "--per-font").map(|s| s.parse().unwrap()).unwrap_or(40);
